@@ -1,10 +1,10 @@
 SPECIFICATION Spec
 CONSTANTS
   FSKinds = {"std", "mem", "rec"}
-  PathIds = {1, 2, 3, 4, 5}
+  PathIds = {1, 2, 3, 4, 5, 6}
   Vals = {1, 2, 3}
   MaxRecs = 4
-  MemPaths = {1, 2, 3, 4, 5}
+  MemPaths = {1, 2, 3, 4, 5, 6}
   Avoid = {}
   Mirror = FALSE
   MaxLevel = 100
